@@ -18,6 +18,10 @@ class _GenClose(Exception):
     pass
 
 
+CHILD_ID_BASE = 50_000_000
+CHILD_IDS: dict = {}
+
+
 class ObjectMixin:
     # ================================================================== getattr
     def getattr(self, obj: V, name: str) -> V:
@@ -359,7 +363,9 @@ class ObjectMixin:
         if k in ("list", "set"):
             child = rec.meta.get("child:" + name)
             if child is None:
-                child = self.st.new_id()
+                # the id of a nested list is a function of (parent list, field), not of allocation order: sibling sub-states
+                # (body paths of a summarised loop) that create nested lists in different orders must agree on it
+                child = CHILD_IDS.setdefault((e.lid, name), CHILD_ID_BASE + len(CHILD_IDS))
                 et = t[1]
                 crec = ListRec("base", elem_type=et, arity=rec.arity + 1, name=f"{rec.name}.{name}")
                 if et[0] == "opt":
